@@ -6,6 +6,7 @@ import (
 	"errors"
 	"fmt"
 	"math/rand"
+	"os"
 	"os/exec"
 	"sort"
 	"strings"
@@ -252,7 +253,12 @@ func Run(ctx *core.Ctx) {
 	}
 	defer stopSink()
 	ck := &checker{ctx: ctx, bin: bin, reported: map[string]int{}, workers: 16}
-	ck.partA()
+	if os.Getenv("VERIF_C16_ONLY") != "B" {
+		ck.partA()
+	}
+	if os.Getenv("VERIF_C16_ONLY") == "A" {
+		return
+	}
 	ctx.Logf("part A done: evaluations=%d distinct=%d", ctx.Counter("segmentations_compared"), ctx.DistinctN())
 	ck.partB()
 }
